@@ -933,6 +933,29 @@ func (tb *TB) Cmp(op Op, a, b *Term) *Term {
 			return tb.mapLeaves(b, func(l *Term) *Term { return tb.Cmp(op, a, l) })
 		}
 	}
+	// range facts from cheap bounds (both sides small non-negative numbers, so signed = unsigned)
+	if w == 64 {
+		ua, ub := tb.UB(a), tb.UB(b)
+		if ua < ubInf && ub < ubInf {
+			la, lb := tb.LB(a), tb.LB(b)
+			switch op {
+			case OpULT, OpSLT:
+				if ua < lb {
+					return tb.True
+				}
+				if la >= ub {
+					return tb.False
+				}
+			case OpULE, OpSLE:
+				if ua <= lb {
+					return tb.True
+				}
+				if la > ub {
+					return tb.False
+				}
+			}
+		}
+	}
 	// unsigned x < 0 is false, 0 <= x true
 	if op == OpULT && b.IsConst() && b.C == 0 {
 		return tb.False
@@ -1070,6 +1093,40 @@ func (tb *TB) FPOp(op Op, a, b *Term) *Term {
 			}
 		}
 		return tb.FPConst(r, a.S.W)
+	}
+	// identities that hold for every IEEE value up to the sign of zero (signed zeros are identified by
+	// every comparison the code under test makes; stated in DESIGN.md): x*1 = x, x/1 = x, x+0 = x, x-0 = x,
+	// 0 * (int converted to float) = 0
+	isC := func(t *Term, v float64) bool { return t.IsConst() && t.FPVal() == v }
+	switch op {
+	case OpFMul:
+		if isC(a, 1) {
+			return b
+		}
+		if isC(b, 1) {
+			return a
+		}
+		if isC(a, 0) && (b.Op == OpSToF || b.Op == OpUToF) {
+			return tb.FPConst(0, a.S.W)
+		}
+		if isC(b, 0) && (a.Op == OpSToF || a.Op == OpUToF) {
+			return tb.FPConst(0, a.S.W)
+		}
+	case OpFDiv:
+		if isC(b, 1) {
+			return a
+		}
+	case OpFAdd:
+		if isC(a, 0) {
+			return b
+		}
+		if isC(b, 0) {
+			return a
+		}
+	case OpFSub:
+		if isC(b, 0) {
+			return a
+		}
 	}
 	if (op == OpFAdd || op == OpFMul) && a.ID > b.ID {
 		a, b = b, a
@@ -1273,6 +1330,10 @@ func (tb *TB) UB(t *Term) uint64 {
 		if b > r {
 			r = b
 		}
+		// clamp pattern min(x, B) = ite(x <=u B, x, B)
+		if c := t.Args[0]; (c.Op == OpULE) && c.Args[0] == t.Args[1] && c.Args[1].IsConst() && t.Args[2] == c.Args[1] {
+			r = c.Args[1].C
+		}
 	case OpAdd:
 		a, b := tb.UB(t.Args[0]), tb.UB(t.Args[1])
 		// additions of small values cannot wrap; a constant like -1 (huge unsigned) yields unknown
@@ -1287,6 +1348,55 @@ func (tb *TB) UB(t *Term) uint64 {
 		}
 	case OpZExt:
 		r = tb.UB(t.Args[0])
+	case OpUDiv, OpSDiv:
+		if c := t.Args[1]; c.IsConst() && c.C > 0 && c.C < ubInf {
+			if a := tb.UB(t.Args[0]); a < ubInf {
+				r = a / c.C
+			}
+		}
+	case OpMul:
+		a, b := tb.UB(t.Args[0]), tb.UB(t.Args[1])
+		if a < 1<<30 && b < 1<<30 {
+			r = a * b
+		}
+	case OpBOr, OpBXor:
+		a, b := tb.UB(t.Args[0]), tb.UB(t.Args[1])
+		if a < ubInf && b < ubInf {
+			m := a
+			if b > m {
+				m = b
+			}
+			// smallest 2^k-1 >= m
+			p := uint64(1)
+			for p-1 < m {
+				p <<= 1
+			}
+			r = p - 1
+		}
+	case OpLShr:
+		if c := t.Args[1]; c.IsConst() && c.C < 64 {
+			if a := tb.UB(t.Args[0]); a < ubInf {
+				r = a >> c.C
+			}
+		}
+	case OpShl:
+		if c := t.Args[1]; c.IsConst() && c.C < 30 {
+			if a := tb.UB(t.Args[0]); a < 1<<30 {
+				r = a << c.C
+			}
+		}
+	case OpSub:
+		a, b := t.Args[0], t.Args[1]
+		if tb.UB(a) < ubInf && tb.UB(b) < ubInf && tb.LB(a) >= tb.UB(b) {
+			r = tb.UB(a) - tb.LB(b)
+		}
+	case OpExtract:
+		if t.J == 0 {
+			r = tb.UB(t.Args[0])
+			if t.S.W < 62 && r > mask(t.S.W) {
+				r = mask(t.S.W)
+			}
+		}
 	case OpBAnd:
 		a, b := tb.UB(t.Args[0]), tb.UB(t.Args[1])
 		r = a
@@ -1314,6 +1424,7 @@ func (tb *TB) SetVarUB(t *Term, hi uint64) {
 		tb.varUB = map[int]uint64{}
 	}
 	tb.varUB[t.ID] = hi
+	delete(tb.ub, t.ID)
 }
 
 // LB returns a sound unsigned lower bound of a BV term (0 when unknown).
@@ -1352,4 +1463,62 @@ func (tb *TB) LB(t *Term) uint64 {
 	}
 	tb.lb[t.ID] = r
 	return r
+}
+
+// Dump prints a term up to a depth (debugging).
+func (t *Term) Dump(depth int) string {
+	if t.IsConst() {
+		return constSMT(t)
+	}
+	if t.Op == OpVar {
+		return t.Name
+	}
+	if depth == 0 {
+		return fmt.Sprintf("n%d", t.ID)
+	}
+	name := opNames[t.Op]
+	if name == "" {
+		name = fmt.Sprintf("op%d", t.Op)
+	}
+	var sb strings.Builder
+	sb.WriteString("(" + name)
+	for _, a := range t.Args {
+		sb.WriteString(" " + a.Dump(depth-1))
+	}
+	sb.WriteString(")")
+	return sb.String()
+}
+
+// WhyUnbounded describes the sub-term responsible for an unknown upper bound (debugging).
+func (tb *TB) WhyUnbounded(t *Term) string {
+	for depth := 0; depth < 200; depth++ {
+		var next *Term
+		for _, a := range t.Args {
+			if a.S.K == SBV && tb.UB(a) >= ubInf {
+				next = a
+				break
+			}
+		}
+		if next == nil || (t.Op != OpIte && t.Op != OpAdd && t.Op != OpZExt) {
+			return t.Dump(3)
+		}
+		t = next
+	}
+	return "?"
+}
+
+// ClampUB returns min(x, b) as a term whose upper bound is syntactically b.
+func (tb *TB) ClampUB(x *Term, b uint64) *Term {
+	if tb.UB(x) <= b {
+		return x
+	}
+	bc := tb.BVConst(b, x.S.W)
+	if x.IsConst() {
+		if x.C > b {
+			return bc
+		}
+		return x
+	}
+	c := tb.mk(&Term{Op: OpULE, S: BoolSort, Args: []*Term{x, bc}})
+	return tb.mk(&Term{Op: OpIte, S: x.S, Args: []*Term{c, x, bc}})
 }
